@@ -43,8 +43,22 @@
 //	      must be the full copy without error. All oracles of (ii)-(iv) run on them, and the Lean
 //	      model is compared on every one (it takes a few milliseconds per chain).
 //
+//	(vi)  revision families (harness/gen/c06rev.go): the module that defines the groupings is loaded
+//	      in two or three revisions whose same-named groupings differ (typedef behind the type name,
+//	      leaves, defaults, list vs container, nested uses, a grouping only one revision has), the
+//	      importers designate different revisions by revision-date - in different modules, in one
+//	      module under two prefixes, in a submodule against its module (also under the same prefix),
+//	      through a grouping of another importer - next to imports without revision-date (= latest
+//	      loaded revision); a systematic block walks two importers through every ordered pair of
+//	      distinct designations and every one of the 24 load orders, the rest is seeded and
+//	      shuffled. Every uses must bind to, and the using node must receive a copy of, the grouping
+//	      of exactly the revision the import statement of its own file designates (RFC 7950 5.1.1),
+//	      nested uses included; a grouping the designated revision lacks must not resolve. All
+//	      oracles of (ii)-(iv) run on them and the Lean model (whose registry lookup findModule
+//	      takes the revision-date) is compared on every one.
+//
 // Inputs: corpus/C06/*.json first (hand-written witnesses with a table of expected Extra / Exts),
-// then the deep chains, then the seeded sets. Any failure of (ii), (iii), (iv) or (v) is a "spec" disagreement with verdict "violates".
+// then the deep chains, then the revision families, then the seeded sets. Any failure of (ii), (iii), (iv) or (v) is a "spec" disagreement with verdict "violates".
 package main
 
 import (
@@ -82,6 +96,19 @@ type know struct {
 	AugNodes []gen.C06AugNode `json:"aug_nodes,omitempty"`
 	// corpus cases: hand-written Extra / Exts of selected nodes (path as Entry.Path prints it)
 	ExpectExtras []gen.C06Rec `json:"expect_extras,omitempty"`
+	// Family "rev": several revisions of the defining module are loaded and the import statements
+	// designate different ones (gen/c06rev.go); the findings then name the clause
+	Family string `json:"family,omitempty"`
+}
+
+// revClause is appended to binding / copy findings of a revision family.
+const revClause = " [several revisions of the defining module are loaded: a prefixed uses denotes the grouping of exactly the revision the import statement of its own file designates - revision-date, else the latest loaded revision (RFC 7950 5.1.1); the using node must receive that grouping's nodes, nested uses included]"
+
+func (k know) clause() string {
+	if k.Family == "rev" {
+		return revClause
+	}
+	return ""
 }
 
 // ---- AST access ---------------------------------------------------------------------------
@@ -414,7 +441,7 @@ func checkBinding(k know, ix astIndex, f findings) {
 			got = g.Statement().Location()
 		}
 		if got != u.GLoc {
-			f.add("binding: uses %s at %s (%s) binds to the grouping at %q, the scoping rules say %q", u.Ref, u.Loc, u.Site, got, u.GLoc)
+			f.add("binding: uses %s at %s (%s) binds to the grouping at %q, the scoping rules say %q%s", u.Ref, u.Loc, u.Site, got, u.GLoc, k.clause())
 		}
 	}
 }
@@ -437,8 +464,8 @@ func checkCopies(k know, ms *yang.Modules, ix astIndex, f findings, skipTouched 
 		want := contributed(yang.ToEntry(g), s.Names, true, false)
 		got := contributed(e, s.Names, true, false)
 		if d := firstDiff(got, want); d != "" {
-			f.add("copy: the instance of grouping %s (%s) under /%s/%s differs from the grouping's own entry: %s", s.GName, s.GLoc, s.Module,
-				strings.Join(s.Path, "/"), d)
+			f.add("copy: the instance of grouping %s (%s) under /%s/%s differs from the grouping's own entry: %s%s", s.GName, s.GLoc, s.Module,
+				strings.Join(s.Path, "/"), d, k.clause())
 		}
 	}
 }
@@ -478,18 +505,37 @@ func checkExpansion(k know, ms *yang.Modules, f findings, skip func(*yang.Module
 		}
 		walk(yang.ToEntry(m))
 	}
-	sort.SliceStable(got, func(i, j int) bool { return got[i].Path < got[j].Path })
+	// several loaded revisions of one module have trees with the same paths: order by path, then by record
 	js := func(r gen.C06Rec) string { b, _ := json.Marshal(r); return string(b) }
-	for i := 0; i < len(got) || i < len(k.Expect); i++ {
-		var a, b string
-		if i < len(got) {
-			a = js(got[i])
+	render := func(rs []gen.C06Rec) []string {
+		type pr struct{ path, js string }
+		ps := make([]pr, len(rs))
+		for i, r := range rs {
+			ps[i] = pr{r.Path, js(r)}
 		}
-		if i < len(k.Expect) {
-			b = js(k.Expect[i])
+		sort.SliceStable(ps, func(i, j int) bool {
+			if ps[i].path != ps[j].path {
+				return ps[i].path < ps[j].path
+			}
+			return ps[i].js < ps[j].js
+		})
+		out := make([]string, len(ps))
+		for i := range ps {
+			out[i] = ps[i].js
+		}
+		return out
+	}
+	gs, es := render(got), render(k.Expect)
+	for i := 0; i < len(gs) || i < len(es); i++ {
+		var a, b string
+		if i < len(gs) {
+			a = gs[i]
+		}
+		if i < len(es) {
+			b = es[i]
 		}
 		if a != b {
-			f.add("expansion: node %d of the tree is %s, the reference expansion has %s", i, a, b)
+			f.add("expansion: node %d of the tree is %s, the reference expansion has %s%s", i, a, b, k.clause())
 			return
 		}
 	}
@@ -1037,6 +1083,7 @@ func oracle(c rescorr.Case, ms *yang.Modules, errs []error, out *rescorr.GoOut) 
 				checkPreConvert(c, k, out.Dump, ix, f)
 			}
 			checkOldRevision(c, k, f)
+			checkCopies(k, ms, ix, f, false)
 			checkCorpus(k, ms, ix, f)
 		}
 		return
@@ -1126,12 +1173,14 @@ func main() {
 				// older revision of the file at old_rev.index processed first
 				PreConvert bool           `json:"pre_convert"`
 				OldRev     *gen.C06OldRev `json:"old_rev"`
+				// "rev": a revision family (findings name the clause)
+				Family string `json:"family"`
 			}
 			if err := json.Unmarshal(raw, &cc); err != nil || len(cc.Names) == 0 {
 				lib.Fatal("corpus file %s: %v", p, err)
 			}
 			kn := know{Variant: "corpus", ExpectExtras: cc.ExpectExtras, Uses: cc.Uses, AugNodes: cc.AugNodes, Sites: cc.Sites,
-				PreConvert: cc.PreConvert, OldRev: cc.OldRev}
+				PreConvert: cc.PreConvert, OldRev: cc.OldRev, Family: cc.Family}
 			if cc.Variant == "mut" {
 				kn = know{Variant: "mut", Sites: cc.Sites, BaseNames: cc.BaseNames, BaseTexts: cc.BaseTexts, Uses: cc.Uses, AugNodes: cc.AugNodes}
 			}
@@ -1220,6 +1269,84 @@ func main() {
 			distinct.Add(strings.Join(o.Case.Texts, "\x00"))
 		}
 		total += chainN
+	}
+	// then the revision families (gen/c06rev.go): two or three loaded revisions of the module that
+	// defines the groupings, importers that designate different ones
+	var revN, revClean, revFaulty, revOutside, revSites int64
+	revDist := map[string]int64{}
+	{
+		nrev := gen.C06RevMinimalCount + 456
+		if f.Thorough() {
+			nrev = gen.C06RevMinimalCount + 7856
+		}
+		var cases []rescorr.Case
+		var gcs []*gen.C06Case
+		for i := 0; i < nrev; i++ {
+			gc, info := gen.C06Rev(f.Rand(50000000+i), i)
+			kb, _ := json.Marshal(know{Variant: "base", Family: "rev", Uses: gc.Uses, Sites: gc.Sites, Expect: gc.Expect, Late: gc.Late, PreConvert: i%2 == 0})
+			cases = append(cases, rescorr.Case{Names: gc.Names, Texts: gc.Texts, Extra: map[string]string{"c06": string(kb),
+				"origin": fmt.Sprintf("revision family %d (a uses copies the grouping of the revision its file's import designates, RFC 7950 5.1.1)", i)}})
+			gcs = append(gcs, gc)
+			revDist[fmt.Sprintf("loaded_revisions=%d", info.Revisions)]++
+			revDist[fmt.Sprintf("distinct_revisions_designated=%d", info.Designated)]++
+			revDist["import_statements_with_revision-date"] += int64(info.Pinned)
+			revDist["import_statements_without_revision-date"] += int64(info.Unpinned)
+			revDist["defining_module_named_"+info.LibName]++
+			for name, on := range map[string]bool{"one_module_two_prefixes_two_revisions": info.TwoPrefixes, "submodule_designates_another_revision_than_its_module": info.SubPin,
+				"submodule_and_module_same_prefix_other_revision": info.SamePrefix, "grouping_of_another_importer_with_another_designation": info.Chain,
+				"uses_of_a_grouping_not_every_revision_has": info.OnlyIn, "uses_of_a_grouping_the_designated_revision_lacks(must_not_resolve)": info.Dangling,
+				"systematic_block(2_revisions_2_importers_every_load_order)": info.Minimal} {
+				if on {
+					revDist[name]++
+				}
+			}
+		}
+		for i, o := range rescorr.RunAll(cases, f) {
+			revN++
+			origin := o.Case.Extra["origin"]
+			switch {
+			case o.Crashed:
+				res.AddDisagreement(lib.Disagreement{Kind: "crash", Input: o.Case.Texts, Go: o.CrashMsg, SpecVerdict: "violates",
+					What: origin + ": goyang crashed or hung: " + firstLine(o.CrashMsg), Replay: o.Case})
+				continue
+			case o.Skipped != "":
+				res.AddDisagreement(lib.Disagreement{Kind: "obligation", Input: o.Case.Texts, Go: o.Go.ParseErr, SpecVerdict: "",
+					What: origin + ": not accepted by Modules.Parse (" + o.Go.ParseErr + ")", Replay: o.Case})
+				continue
+			}
+			if len(o.Go.Findings) > 0 {
+				res.AddDisagreement(lib.Disagreement{Kind: "spec", Input: o.Case.Texts, Go: o.Go.Findings, SpecVerdict: "violates",
+					What: origin + ": " + o.Go.Findings[0], Replay: o.Case})
+			}
+			if o.Outside != "" {
+				revOutside++
+			} else {
+				g := lib.Project(o.Go.Dump, keys, true)
+				md := lib.Project(o.Model, keys, true)
+				if d := rescorr.Diff(g, md); d != "" {
+					res.AddDisagreement(lib.Disagreement{Kind: "correspondence", Input: o.Case.Texts, Go: g, Model: md, SpecVerdict: "",
+						What: origin + ": resolver differs from the model: " + d, Replay: o.Case})
+				}
+			}
+			if rescorr.HasErrors(o.Go.Dump) {
+				if !gcs[i].Faulty {
+					res.AddDisagreement(lib.Disagreement{Kind: "spec", Input: o.Case.Texts, Go: o.Go.Dump, SpecVerdict: "violates",
+						What: origin + ": a revision family without deliberate faults does not process cleanly: " + o.Go.Dump[0] + revClause, Replay: o.Case})
+				} else {
+					revFaulty++
+				}
+				continue
+			}
+			if gcs[i].Faulty {
+				res.AddDisagreement(lib.Disagreement{Kind: "spec", Input: o.Case.Texts, Go: o.Go.Dump, SpecVerdict: "violates",
+					What: origin + ": a uses of a grouping that the designated revision lacks was accepted" + revClause, Replay: o.Case})
+				continue
+			}
+			revClean++
+			revSites += int64(len(gcs[i].Sites))
+			distinct.Add(strings.Join(o.Case.Texts, "\x00"))
+		}
+		total += revN
 	}
 	const batch = 4000
 	for lo := 0; lo < n; lo += batch {
@@ -1333,8 +1460,10 @@ func main() {
 	}
 	res.Evaluations = total
 	res.DistinctNontrivial = distinct.Len()
-	res.Rule = "corpus/C06 (witnesses of D62 and of the seeded changes C06-c1, C06-d2, C06-e1, C06-g2), then a deterministic family of deep chains g0 uses g1 ... uses gN (N up to 200 quick, 300 thorough; " +
-		"top-down / bottom-up / shuffled; one module / submodules / imported modules / alternating; five kinds of instantiation site), then seeded grouping-heavy module sets (harness/gen/c06.go: 1-3 modules, 0-3 submodules each with include chains, groupings at " +
+	res.Rule = "corpus/C06 (witnesses of D62 and of the seeded changes C06-c1, C06-d2, C06-e1, C06-g2, C06-k22), then a deterministic family of deep chains g0 uses g1 ... uses gN (N up to 200 quick, 300 thorough; " +
+		"top-down / bottom-up / shuffled; one module / submodules / imported modules / alternating; five kinds of instantiation site), then revision families (harness/gen/c06rev.go: 2-3 loaded revisions of the defining module with differing same-named groupings, " +
+		"importers designating different revisions by revision-date in different modules / one module under two prefixes / a submodule against its module / through another importer's grouping, next to imports without revision-date; " +
+		"144 systematic cases = 6 ordered pairs of designations x 24 load orders, then seeded ones in shuffled load order), then seeded grouping-heavy module sets (harness/gen/c06.go: 1-3 modules, 0-3 submodules each with include chains, groupings at " +
 		"module level, in submodules, in containers/lists/operations/notifications and inside groupings, tiny name pools so that shadowing is " +
 		"frequent, submodules whose belongs-to prefix differs from the module's own prefix and which import another module under the " +
 		"module's own prefix or a sibling's belongs-to prefix, nested uses, typedef t and identity idn defined per module so that resolving in the wrong scope shows, every reachable " +
@@ -1352,6 +1481,12 @@ func main() {
 	res.Distribution["deep_chain_cases_clean"] = chainClean
 	res.Distribution["deep_chain_cases_compared_with_the_model"] = chainModelCompared
 	res.Distribution["deep_chain_greatest_N"] = chainMaxDepth
+	res.Distribution["revision_family_cases"] = revN
+	res.Distribution["revision_family_cases_clean"] = revClean
+	res.Distribution["revision_family_cases_with_a_deliberate_dangling_uses_rejected"] = revFaulty
+	res.Distribution["revision_family_cases_outside_model"] = revOutside
+	res.Distribution["revision_family_instances_compared"] = revSites
+	res.Distribution["revision_family_shapes"] = revDist
 	res.Distribution["corpus_cases"] = corpusN
 	res.Distribution["corpus_cases_clean"] = corpusClean
 	res.Distribution["clean_base_variants"] = clean
